@@ -2,7 +2,12 @@
 //! case, the request lines and the implementation's observations for the Lean driver.
 mod common;
 mod gens;
+mod hist;
 mod p01;
+mod p02;
+mod p06;
+mod p07;
+mod p08;
 mod p04;
 mod p05;
 mod p12;
@@ -69,6 +74,10 @@ fn main() {
     let mut rng = Rng::new(cfg.seed);
     match cfg.prop.as_str() {
         "C01" => p01::run(&cfg, &mut rng, &mut out),
+        "C02" => p02::run(&cfg, &mut rng, &mut out),
+        "C06" => p06::run(&cfg, &mut rng, &mut out),
+        "C07" => p07::run(&cfg, &mut rng, &mut out),
+        "C08" => p08::run(&cfg, &mut rng, &mut out),
         "C04" => p04::run(&cfg, &mut rng, &mut out),
         "C05" => p05::run(&cfg, &mut rng, &mut out),
         "C12" => p12::run(&cfg, &mut rng, &mut out),
